@@ -570,3 +570,59 @@ SILENT += [
     ("reprint-atr", "jesse/indicators/atr.py", _reprint, None, ["C13", "C14", "C15"]),
     ("reprint-kdj", "jesse/indicators/kdj.py", _reprint, None, ["C13", "C14", "C15"]),
 ]
+
+
+# ---- round 5: the behaviour-preserving twin of each seeded idea (the refactoring done right), and the seeds' reversals that have no
+# seed directory of their own
+SILENT += [
+    ("r5-market-flush-as-pop-loop", "jesse/store/state_orders.py",
+     "        for o in self.to_execute:\n            o.execute()\n\n        self.to_execute = []",
+     "        while self.to_execute:\n            o = self.to_execute.pop(0)\n            o.execute()", ["C02", "C05", "C12"]),
+    ("r5-max-drawdown-cummax", "jesse/services/metrics.py", "prices.expanding(min_periods=0).max()", "prices.cummax()", ["C16"]),
+    ("r5-charset-generated-inclusive", "jesse/modes/optimize_mode/Optimize.py",
+     "charset: str = r'()*+,-./0123456789:;<=>?@ABCDEFGHIJKLMNOPQRSTUVWXYZ[\\]^_`abcdefghijklmnopqrstuvw',",
+     "charset: str = ''.join(map(chr, range(40, 120))),", ["C19"]),
+    ("r5-risk-to-qty-augmented-assign", "jesse/utils.py", "        size = size * (1 - fee_rate * 3)", "        size *= (1 - 3 * fee_rate)", ["C17"]),
+    ("r5-cancel-guard-reordered", "jesse/models/Order.py",
+     "    def cancel(self, silent=False, source='') -> None:\n        if self.is_canceled or self.is_executed:\n            return",
+     "    def cancel(self, silent=False, source='') -> None:\n        if self.is_executed or self.is_canceled:\n            return", ["C04", "C05"]),
+    ("r5-tsi-ema-as-recursion", "jesse/indicators/tsi.py",
+     "    t_arr = np.arange(n)\n    # Calculate the contribution from the first element\n    ema_vals = series[0] * ((1 - alpha) ** t_arr)\n    if n > 1:\n"
+     "        # For t>=1, add the convolution of the rest of the series with the weights alpha*(1-alpha)^(t)\n"
+     "        conv = np.convolve(series[1:], alpha * ((1 - alpha) ** np.arange(n - 1)), mode='full')[:n-1]\n        ema_vals[1:] += conv\n    return ema_vals",
+     "    ema_vals = np.empty(n)\n    ema_vals[0] = series[0]\n    for i in range(1, n):\n        ema_vals[i] = alpha * series[i] + (1 - alpha) * ema_vals[i - 1]\n    return ema_vals",
+     ["C13", "C14"]),
+    ("r5-liquidation-price-cache-reset-everywhere", "jesse/models/Position.py",
+     [("        self._liquidation_price = None\n", "        self._liquidation_price = None\n        self._isolated_liq = None\n"),
+      ("            if self.type == 'long':\n                return self.entry_price * (1 - self._initial_margin_rate + 0.004)\n"
+       "            elif self.type == 'short':\n                return self.entry_price * (1 + self._initial_margin_rate - 0.004)\n"
+       "            else:\n                return np.nan\n",
+       "            if self._isolated_liq is not None and self._isolated_liq[0] == self.entry_price and self._isolated_liq[1] == self.type:\n"
+       "                return self._isolated_liq[2]\n"
+       "            if self.type == 'long':\n                value = self.entry_price * (1 - self._initial_margin_rate + 0.004)\n"
+       "            elif self.type == 'short':\n                value = self.entry_price * (1 + self._initial_margin_rate - 0.004)\n"
+       "            else:\n                return np.nan\n"
+       "            self._isolated_liq = (self.entry_price, self.type, value)\n            return value\n")],
+     None, ["C09"]),
+]
+
+SILENT += [
+    ("r5-fast-skip-ahead-inclusive", BT,
+     "        for i in range(len(short_timeframes_candles)):\n            current_temp_candle = short_timeframes_candles[i].copy()\n            if i > 0:",
+     "        prices = np.array([o.price for o in executing_orders])\n"
+     "        reached = ((short_timeframes_candles[:, 4, None] <= prices) & (prices <= short_timeframes_candles[:, 3, None])).any(axis=1)\n"
+     "        first_minute = int(reached.argmax()) if reached.any() else len(short_timeframes_candles)\n"
+     "        if first_minute > 0:\n            store.candles.add_multiple_1m_candles(short_timeframes_candles[:first_minute], exchange, symbol)\n"
+     "        for i in range(first_minute, len(short_timeframes_candles)):\n            current_temp_candle = short_timeframes_candles[i].copy()\n            if i > 0:",
+     ["C12", "C02", "C07", "C01"]),
+]
+# skipping ahead to the first touched minute WITHOUT storing the minutes before it: the hook of that fill finds a hole in the 1m store
+FIRING += [
+    ("r5-fast-skip-ahead-without-storing", BT,
+     "        for i in range(len(short_timeframes_candles)):\n            current_temp_candle = short_timeframes_candles[i].copy()\n            if i > 0:",
+     "        prices = np.array([o.price for o in executing_orders])\n"
+     "        reached = ((short_timeframes_candles[:, 4, None] <= prices) & (prices <= short_timeframes_candles[:, 3, None])).any(axis=1)\n"
+     "        first_minute = int(reached.argmax()) if reached.any() else len(short_timeframes_candles)\n"
+     "        for i in range(first_minute, len(short_timeframes_candles)):\n            current_temp_candle = short_timeframes_candles[i].copy()\n            if i > 0:",
+     ["C12"]),
+]
